@@ -30,6 +30,9 @@ BARE = set("ABCDEFGHIJKLMNOPQRSTUVWXYZabcdefghijklmnopqrstuvwxyz0123456789_@%+=:
 OPERATORS = set(";&|()<>\n")
 
 
+_ASSIGN = __import__("re").compile(r"[A-Za-z_][A-Za-z0-9_]*=")
+
+
 class Unmodelled(Exception):
     def __init__(self, cls, detail):
         super().__init__(f"{cls}: {detail}")
@@ -204,7 +207,14 @@ class _Lexer:
             cur.argv.append(w)
         if cur.argv or cur.herestring is not None:
             cmds.append(cur)
-        return cmds
+        # leading NAME=value words are variable assignments, not part of argv (XCU 2.9.1)
+        out = []
+        for c in cmds:
+            while c.argv and _ASSIGN.match(c.argv[0]):
+                c.argv.pop(0)
+            if c.argv or c.herestring is not None:
+                out.append(c)
+        return out
 
     def _skip_blanks(self):
         while self.peek() in (" ", "\t") and self.peek() != "":
@@ -445,6 +455,11 @@ def validate(shells=("/bin/sh", "/bin/bash")):
                         assert real_stdin == to_bytes(model[0].herestring) + b"\n", f"{shell}: {cmd!r}: here-string {real_stdin!r}"
                 n += 1
             # operators must be reported as such: the real shell runs a second program / redirects
+            for cmd, want in [("x=1 curl a", [[b"curl", b"a"]]), ("x=1 y=2 http b=3", [[b"http", b"b=3"]]), ("curl a; x=1", [[b"curl", b"a"]])]:
+                inv, rc, err = run_real(cmd, shell, stubdir)
+                got = [[to_bytes(w) for w in c.argv] for c in evaluate(cmd, dialect)]
+                assert got == want == [a for a, _ in inv], f"{shell}: {cmd!r}: model {got} real {inv}"
+                n += 1
             for bad in ["curl a; http b", "curl a | http b", "curl a\nhttp b", "curl $(http b)", "curl a > x"]:
                 try:
                     evaluate(bad, dialect)
